@@ -8,7 +8,7 @@ from hv.common import Result, rng_for, h
 
 YEARS = [2021, 2022, 2023]
 N_QUICK = {'C01': 12, 'C03': 8, 'C04': 10, 'C05': 5, 'C06': 8, 'C12': 10, 'C13': 6}
-N_THOROUGH = {'C01': 400, 'C03': 250, 'C04': 300, 'C05': 120, 'C06': 250, 'C12': 300, 'C13': 150}
+N_THOROUGH = {'C01': 800, 'C03': 600, 'C04': 800, 'C05': 250, 'C06': 600, 'C12': 800, 'C13': 400}
 CEILING = 60000
 
 
